@@ -58,9 +58,17 @@ def run(ctx):
     combos = [(b, m) for b in bl for m in mats]
     if not (ctx.thorough or ctx.search):
         rng.shuffle(combos)
-        forced = [c for c in combos if c[1][0].startswith('complex') and c[0][0] in ('sa', 'rootnode')][:2]
+        forced = [c for c in combos if c[1][0].startswith('complex') and c[0][0] in ('sa', 'rootnode')][:4]
         combos = forced + [c for c in combos if c not in forced][:26]
-    for (bname, f, _), (mname, A) in combos:
+    # complex Hermitian problems with a coarsest level of several unknowns (a Hermitian, genuinely complex coarse matrix),
+    # every direct coarse solver
+    import pyamg
+    cm = [m for m in mats if m[0].startswith('complex')]
+    extra = []
+    for k, (mname, A) in enumerate(cm * 4):
+        extra.append((('sa-coarse8', lambda A_: pyamg.smoothed_aggregation_solver(A_, max_coarse=8), 'sym'), (mname, A)))
+    combos = extra + list(combos)
+    for ci, ((bname, f, _), (mname, A)) in enumerate(combos):
         np.random.seed(ctx.seed)
         try:
             ml = f(A)
@@ -74,7 +82,7 @@ def run(ctx):
         smoothers = list(FAMILY)
         rng.shuffle(smoothers)
         for pre, post in [(smoothers[0], smoothers[1]), (smoothers[2], smoothers[2])][:1 if not ctx.thorough else 2]:
-            coarse = rng.choice(['pinv', 'lu', 'cholesky', 'splu'])
+            coarse = ['splu', 'pinv', 'lu', 'cholesky'][ci % 4]      # dealt out, so that complex problems meet every solver
             ml.coarse_solver = coarse_grid_solver(coarse)
             case = dict(builder=bname, matrix=mname, pre=pre, post=post, coarse=coarse, levels=nlev)
             ctx.mark(case)
